@@ -6,7 +6,7 @@ import numpy as np
 from .. import core, gen
 
 ID = 'C16'
-FOUNDATIONS = ['harness.foundation.pybody']   # bernsenRule / otsuImg are tied to the current bodies of gbernsen / otsu
+FOUNDATIONS = ['harness.foundation.pybody', 'harness.foundation.cscalar']   # see each foundation module's docstring
 _META = core.VERIF / 'harness' / 'props' / 'meta' / 'C16.json'
 LEVEL = json.loads(_META.read_text())['category'] if _META.exists() else 'other'
 RULE = ('corpus; a size-threshold stream (a handful of cases per run whose pixel count / per-bin count / number of distinct '
